@@ -210,6 +210,25 @@ struct Gen {
     int step2 = (int)ch.range(2, 4); holes(sa, k, step2, (int)ch.pick((size_t)step2));   // (slots already freed are skipped by the executor)
     fill(k3, ch.chance(1, 2) ? "malloc" : "zalloc", cls, 1);
   }
+  // a small size class cycling through its queue: page A fills up and goes to the full queue, a second page B becomes the head, a few frees bring A
+  // back behind B, B is exhausted (-> full queue) while A serves again, B is emptied completely and released, another size class takes a fresh page
+  // (possibly B's slot), and the class is allocated again: every step moves queue heads, the full queue and the direct small-size table
+  void g_queue_cycle() {
+    static const std::vector<size_t> cs = { 1024, 1024, 512, 896, 640, 320, 256, 768, 160, 128 }; size_t S = ch.of(cs); size_t cap = class_capacity(S); if (cap < 4 || cap > 600) { g_fill(); return; }
+    // (the real capacity is `cap` or one less, depending on the start offset of the page: the counts below leave that margin)
+    size_t k1 = cap + ch.range(1, 2), nfree = ch.range(5, 8), est = 2 * cap - k1, k2 = est + 2, k3 = ch.range(2, 6), k4 = ch.range(2, 5); if (cap < 30) { g_fill(); return; }
+    if (next_slot + (int)(k1 + k2 + k3 + k4) > NSLOTS || live_bytes + (k1 + k2 + k4) * S > 512*MiB) return;
+    int h = pick_heap_api(); int home = h ? h : def;
+    auto fill = [&](size_t kk, size_t nn) { int s0 = next_slot; next_slot += (int)kk; Op op("fill"); op.u("s", (uint64_t)s0).u("k", kk).s("f", "malloc").u("n", nn); if (h) op.u("h", (uint64_t)h); out.push_back(op); for (size_t i = 0; i < kk; i++) note_alloc(s0 + (int)i, nn, 1, 0, false, home); groups.push_back({ s0, (int)kk, nn }); return s0; };
+    auto frees = [&](int s0, size_t kk, int step, int ph) { out.push_back(Op("rfree").u("s", (uint64_t)s0).u("k", kk).u("step", (uint64_t)step).u("ph", (uint64_t)ph)); for (int i = ph; i < (int)kk; i += step) note_free(s0 + i); };
+    int g1 = fill(k1, S);                                                                  // page A full (-> full queue), 1-3 blocks in page B
+    frees(g1, nfree * 3, 3, (int)ch.pick(3));                                              // a few blocks of A: A returns to the queue behind B
+    int g2 = fill(k2, S);                                                                  // exhausts B (-> full queue), then 2-4 blocks from A
+    frees(g1 + (int)cap - 2, k1 - cap + 2, 1, 0); frees(g2, est, 1, 0);                    // everything that lives in B (and 1-2 blocks next to it)
+    if (ch.chance(1, 3)) out.push_back(Op("collect").u("force", 0));
+    static const std::vector<size_t> other = { 32, 48, 16, 80, 96, 8, 64, 112 }; fill(k3, ch.of(other));
+    fill(k4, S);
+  }
   void g_churn() { int rounds = (int)ch.range(2, 5); for (int i = 0; i < rounds; i++) { size_t before = groups.size(); g_fill(); if (groups.size() > before) { GGroup g = groups.back(); out.push_back(Op("rfree").u("s", (uint64_t)g.s0).u("k", (uint64_t)g.k).u("step", 1).u("ph", 0)); for (int j = 0; j < g.k; j++) note_free(g.s0 + j); } } }
   void g_talloc() {
     size_t n = ch.chance(1, 2) ? ch.of(g_classes) : ch.range(1, 200*KiB); size_t k = ch.range(1, 40); if (k * n > 32*MiB) k = 1;
@@ -293,7 +312,7 @@ struct Gen {
   void step() {
     std::vector<unsigned> w = { pf.w_alloc, pf.w_free, pf.w_realloc, pf.w_expand, pf.w_fill, pf.w_holes, pf.w_drain, pf.w_tfree, pf.w_talloc, pf.w_heap, pf.w_collect, pf.w_visit, pf.w_verify, pf.w_tick, pf.w_churn, pf.w_edge, pf.w_zchain };
     switch (ch.weighted(w)) {
-      case 0: g_alloc(); break; case 1: g_free(); break; case 2: g_realloc(); break; case 3: g_expand(); break; case 4: if (pf.p_aligned > 0 && ch.chance(1, 10)) g_aligned_page(); else g_fill(); break;
+      case 0: g_alloc(); break; case 1: g_free(); break; case 2: g_realloc(); break; case 3: g_expand(); break; case 4: if (pf.p_aligned > 0 && ch.chance(1, 10)) g_aligned_page(); else if (pf.w_fill >= 6 && ch.chance(1, 12)) g_queue_cycle(); else g_fill(); break;
       case 5: g_range_free("rfree", 0); break; case 6: g_range_free("rfree", 1); break; case 7: g_range_free("tfree", (int)ch.pick(2)); break; case 8: g_talloc(); break;
       case 9: if (pf.arenas && ch.chance(1, 6)) g_arena(); else g_heap(); break; case 10: g_collect(); break; case 11: g_visit(); break; case 12: out.push_back(Op("verify")); break;
       case 13: { static const std::vector<size_t> ms = { 1, 5, 11, 50, 101, 1000, 5000 }; out.push_back(Op("tick").u("ms", ch.of(ms))); break; }
